@@ -31,6 +31,9 @@ func (w *World) runArgs(a Action) (args []string, cwd string, env []string) {
 		cwd = w.Root
 	case "sibling":
 		cwd = filepath.Join(w.Root, "sibling")
+	case "pkglink":
+		// the package directory, entered through a symbolic link to the module directory (PWD says so)
+		cwd = w.viaLink(pkgAbs)
 	case "outside":
 		cwd = w.TmpDir
 	default:
@@ -44,8 +47,12 @@ func (w *World) runArgs(a Action) (args []string, cwd string, env []string) {
 		return r
 	}
 	spell := func(p string) string {
-		if a.Sp == "abs" || a.Sp == "rel" || a.Sp == "" {
+		if a.Sp == "abs" || a.Sp == "rel" || a.Sp == "linkout" || a.Sp == "" {
 			return p
+		}
+		if a.Sp == "link" {
+			// absolute, through a symbolic link to the module directory
+			return w.viaLink(p)
 		}
 		return rel(p)
 	}
@@ -59,16 +66,22 @@ func (w *World) runArgs(a Action) (args []string, cwd string, env []string) {
 		args = append(args, "-log")
 	}
 	if a.F.Out {
-		args = append(args, "-out", spell(w.outCPath()))
+		if a.Sp == "linkout" {
+			// only the -out path goes through the linked directory
+			args = append(args, "-out", w.viaLink(w.outCPath()))
+		} else {
+			args = append(args, "-out", spell(w.outCPath()))
+		}
 	}
 	env = append([]string{"TMPDIR=" + w.TmpDir, "HOME=" + w.HomeDir}, core.GoDirs()...)
+	if a.Cwd == "pkglink" {
+		env = append(env, "PWD="+cwd)
+	}
 	switch a.Sp {
-	case "rel", "abs", "":
+	case "rel", "abs", "link", "linkout", "":
 		args = append(args, spell(w.setupPath()))
-		if a.Sp == "abs" || a.Sp == "rel" || a.Sp == "" {
-			// as under `go generate` started from a file of ANOTHER package: the variables describe that file
-			env = append(env, "GOPACKAGE=elsewhere", "GOLINE=3")
-		}
+		// as under `go generate` started from a file of ANOTHER package: the variables describe that file
+		env = append(env, "GOPACKAGE=elsewhere", "GOLINE=3")
 	case "gofile":
 		env = append(env, "GOFILE="+rel(w.setupPath()), "GOPACKAGE=conv", "GOLINE=5")
 	case "both":
@@ -92,6 +105,9 @@ func (w *World) Apply(from State, a Action, extraEnv []string) *Obs {
 		// outD = gen:v -> trunc:v:k
 		v := strings.TrimPrefix(from.OutD, "gen:")
 		w.putOut(w.outDPath(), "trunc:"+v+":"+a.K, pkg)
+	case "crashC":
+		v := strings.TrimPrefix(from.OutC, "gen:")
+		w.putOut(w.outCPath(), "trunc:"+v+":"+a.K, pkg)
 	case "corrupt":
 		w.putOut(w.outDPath(), a.G, pkg)
 	case "extend":
@@ -101,12 +117,20 @@ func (w *World) Apply(from State, a Action, extraEnv []string) *Obs {
 	case "blockC":
 		w.putOut(w.outCPath(), a.B, pkg)
 	case "remove":
-		_ = os.RemoveAll(w.outDPath())
-		_ = os.RemoveAll(w.outCPath())
+		w.clearOut(w.outDPath())
+		w.clearOut(w.outCPath())
 	case "run":
 		args, cwd, env := w.runArgs(a)
-		env = append(env, extraEnv...)
-		res := w.b.Tool.Run(core.RunOpts{Dir: cwd, Args: args, Env: env})
+		stdoutTo := ""
+		for _, e := range extraEnv {
+			// not a variable of the tool's environment: where its standard output goes
+			if strings.HasPrefix(e, "VERIF_STDOUT_TO=") {
+				stdoutTo = strings.TrimPrefix(e, "VERIF_STDOUT_TO=")
+				continue
+			}
+			env = append(env, e)
+		}
+		res := w.b.Tool.Run(core.RunOpts{Dir: cwd, Args: args, Env: env, StdoutTo: stdoutTo})
 		return &Obs{Exit: res.Exit, Stdout: res.Stdout, Stderr: res.Stderr, Args: args, Cwd: cwd, Env: env, Crash: res.Crashed(), Hang: res.TimedOut}
 	default:
 		core.Machinery("unknown action %q", a.A)
@@ -222,6 +246,32 @@ func (b *Binding) ReplayTransition(t *Transition) (diffs []Diff, obs *Obs, files
 	}
 	obs = w.Apply(t.From, t.Act, nil)
 	diffs = w.Conforms(t.To, t.Act, obs, before)
+	return
+}
+
+// ReplayStdoutFull performs a -print run whose standard output cannot be written (/dev/full). The tool may
+// ignore that and succeed, or fail - but a failed run is a failed run: the output path and everything else stay
+// as they were (CLI.tla FailLeavesOut, FrameRest). Returned: the deviations from whichever of the two applies.
+func (b *Binding) ReplayStdoutFull(t *Transition) (diffs []Diff, obs *Obs, files map[string]string) {
+	w := b.NewWorld()
+	defer w.Remove()
+	w.materialise(t.From)
+	before := w.restHash()
+	files = w.snapshotFiles()
+	obs = w.Apply(t.From, t.Act, []string{"VERIF_STDOUT_TO=/dev/full"})
+	to := t.To
+	if obs.Exit != 0 {
+		to = t.From
+		to.LogD, to.LogC = t.To.LogD, t.To.LogC // the log is opened before anything else
+	}
+	for _, d := range w.Conforms(to, t.Act, obs, before) {
+		if d.Aspect == "outD" || d.Aspect == "outC" || d.Aspect == "rest" || d.Aspect == "crash" || d.Aspect == "hang" {
+			if obs.Exit != 0 {
+				d.Msg = fmt.Sprintf("the run failed (exit %d: %s) and yet: %s", obs.Exit, firstLines(obs.Stderr, 1), d.Msg)
+			}
+			diffs = append(diffs, d)
+		}
+	}
 	return
 }
 
